@@ -1,5 +1,6 @@
 import Flurry.Lemmas.BinLock
 import Flurry.Lemmas.BinLin
+import Flurry.Lemmas.BinSeq
 /-! # C01 (bin level): one list bin is linearizable under every interleaving
 
 `Proto/Bin.lean` models one list bin with any number of threads performing `get`, `contains_key`,
@@ -120,5 +121,52 @@ theorem bin_linearizable_quiescent {n : Nat} {s : State} (hr : Reachable n s) (h
   have := bin_linearizable hr k
   rw [callsOnExt_quiescent hq] at this
   exact this
+
+/-! ## the link to the sequential model (`Seq/Model.lean`), restated for reachable states
+
+`Lemmas/BinSeq.lean`: `binNodes s` is the bin as `Seq/Model.lean` sees it (the nodes on the chain in
+list order), `seqStore` is what `Seq.put` / `Seq.replaceNode` / `Seq.computeIfPresent` do to a list
+bin (`listFind`, `listSetVal`, `listRemove`, `ns ++ [nd]`) together with the result of the call. -/
+
+/-- **every transition of a reachable state is a step of the sequential list bin or leaves it
+alone**: `binNodes` changes only at the single store of a validated writer (`wWrite`) and at the
+successful CAS into an empty bin (`wCas`), and there it changes by `seqStore` of that thread's call. -/
+theorem bin_step_refines_seq {n : Nat} {s s' : State} (hr : Reachable n s) {t : Nat}
+    {inv : Option (Nat × KOp)} (hs : step s t inv = some s') :
+    binNodes s' = binNodes s ∨
+      ∃ l p, s.threads[t]? = some l ∧ l.call = some p ∧ (l.pc = .wCas ∨ ∃ h, l.pc = .wWrite h) ∧
+        binNodes s' = (seqStore (binNodes s) p.key p.op).1 := by
+  cases hl : s.threads[t]? with
+  | none => unfold step at hs; rw [hl] at hs; cases hs
+  | some l =>
+    rcases stepK_refines_seq (reachable_inv hr).heap (step_stepK hl hs) with h | ⟨p, h1, h2, h3⟩
+    · exact Or.inl h
+    · exact Or.inr ⟨l, p, rfl, h1, h2, h3⟩
+
+/-- **the store step of a writer**: the new bin *and* the result the writer goes on to return (the
+`res` of its `wUnlock`, which `finish` records in the history) are those of the sequential model -/
+theorem bin_write_refines_seq {n : Nat} {s s' : State} (hr : Reachable n s) {t : Nat} {l : Local}
+    {p : Pending} {h : Nat} {inv : Option (Nat × KOp)}
+    (hl : s.threads[t]? = some l) (hpc : l.pc = .wWrite h) (hc : l.call = some p)
+    (hs : step s t inv = some s') :
+    binNodes s' = (seqStore (binNodes s) p.key p.op).1 ∧
+      s'.threads[t]? = some { l with pc := .wUnlock h (seqStore (binNodes s) p.key p.op).2 false } := by
+  have Ht : HInv (tick s) := (reachable_inv hr).heap.congr rfl rfl
+  have hbt : binNodes (tick s) = binNodes s := binNodes_congr rfl rfl
+  obtain ⟨e1, e2⟩ := writerStore_refines_seq Ht p
+  rw [hbt] at e1 e2
+  have ht : t < s.threads.length := (List.getElem?_eq_some_iff.1 hl).1
+  unfold step at hs
+  rw [hl] at hs
+  obtain ⟨pc, call⟩ := l
+  simp only at hpc hc
+  subst hpc hc
+  simp only [Option.some.injEq] at hs
+  subst hs
+  refine ⟨(binNodes_congr rfl rfl).trans e1, ?_⟩
+  have hthr : (writerStore (tick s) p).1.threads = s.threads := (writerStore_frame (tick s) p).1
+  show ((writerStore (tick s) p).1.threads.set t _)[t]? = _
+  rw [hthr, List.getElem?_set_self ht]
+  exact congrArg (fun r => some (Local.mk (.wUnlock h r false) (some p))) e2
 
 end Flurry.Proto.Bin
